@@ -226,6 +226,18 @@ impl<const E: usize, const N: usize> UserLabels<E, N> {
         store.remove(USER_LABELS_KEY, buf)
     }
 
+    /// Read-only projection `(endpoint, label, value)` of every entry (out-of-tree verification harness).
+    #[cfg(feature = "verif")]
+    pub fn verif_entries(&self, mut f: impl FnMut(EndptId, &str, &str)) {
+        self.state.lock(|cell| {
+            for slot in cell.borrow().iter() {
+                for e in slot.entries.iter() {
+                    f(slot.endpoint_id, e.label.as_str(), e.value.as_str());
+                }
+            }
+        })
+    }
+
     /// Serialise the current registry to `ctx.kv()` under
     /// [`USER_LABELS_KEY`]. Called from every mutating handler path
     /// after the in-memory change is committed.
